@@ -31,7 +31,8 @@
 (*                                                                         *)
 (* Event records (JSON), all with ev; uploads are named by u, f, d, v      *)
 (* (user, file, alias directory, path form):                               *)
-(*   init      shared, mode, dusers, friends, hold, own, so                *)
+(*   init      shared, mode, dusers, friends, hold, own, so, sess          *)
+(*   session on                SessionInitialized / SessionDestroyed seen  *)
 (*   setmode d m | setusers d us | add d m us | remove d | scan | scandir d*)
 (*   scanstart | scandirstart  scan() / scan_directory_files() was called  *)
 (*   friend u on | block u fl | excluded ps     each with hold, own, so    *)
@@ -89,6 +90,7 @@ TInit ==
   /\ obs = NoObs
   /\ cpc = "idle" /\ pend = {} /\ okSince = {}      \* the cycles are not seen; okSince runs from one
   /\ nCfg = 0 /\ nReq = 0 /\ nEnv = 0               \* quiescent point to the next (AlwaysAccumulate)
+  /\ sess = Traces[tid][1].sess /\ nSess = 0
   /\ marks = {}
   /\ lastChange = "none"
   /\ staleItems = SetOf(Traces[tid][1].so)
@@ -180,7 +182,7 @@ TFriend == UNCHANGED anyRemove /\ IsEv("friend") /\ SetFriendCfg(Rec.u, Rec.on) 
 TBlock == UNCHANGED anyRemove /\ IsEv("block") /\ SetBlockCfg(Rec.u, SetOf(Rec.fl)) /\ IndexFromLog /\ Changed /\ Judge({})
 TExcluded == UNCHANGED anyRemove /\ IsEv("excluded") /\ SetExcludedCfg(PhrasesOf(Rec.ps)) /\ IndexFromLog /\ UNCHANGED lastChange /\ Judge({})
 
-Keep == UNCHANGED <<shared, mode, dusers, holder, owner, friends, blocked, excluded, nCfg, nReq, nEnv, lastChange,
+Keep == UNCHANGED <<shared, mode, dusers, holder, owner, friends, blocked, excluded, sess, nSess, nCfg, nReq, nEnv, lastChange,
                    staleItems, anyRemove, cpc, pend>>
 \* the recorded steps that are not design-spec actions keep okSince the way those do
 Acc == okSince' = okSince \cup EntPairs
@@ -263,6 +265,16 @@ TAbortCall ==
        ELSE UNCHANGED up
   /\ Judge({})
 
+\* SessionInitializedEvent / SessionDestroyedEvent seen: logged in / the session is gone.  What is
+\* promised after a change holds from the next quiescent point with a session on.
+TSession ==
+  /\ IsEv("session")
+  /\ sess' = Rec.on /\ nSess' = nSess
+  /\ flag' = TRUE /\ obs' = NoObs
+  /\ UNCHANGED <<shared, mode, dusers, holder, owner, friends, blocked, excluded, nCfg, nReq, nEnv, lastChange,
+                 staleItems, anyRemove, cpc, pend, up>>
+  /\ KeepUsr /\ Acc /\ Judge({})
+
 \* TransferRemovedEvent: the record is no longer in the list of transfers
 TRemoved ==
   /\ IsEv("removed")
@@ -321,10 +333,10 @@ TQuiescent ==
   /\ obs' = NoObs
   /\ okSince' = {}
   /\ Keep
-  /\ Judge((IF ctxFriends = friends /\ ctxBlocked = blocked THEN {}
-            ELSE {"quiescent:settings-change-never-reported"})
-           \cup (IF \A x \in UpsOf(Rec.ups) : up[x[1]].st = x[2].st THEN {}
-                 ELSE {"quiescent:state-changed-without-notification"}))
+  \* (that the user-management job reports a change with an event is not what is promised: what the
+  \* uploads have come to by now is - Convergence is judged on the state after this step)
+  /\ Judge(IF \A x \in UpsOf(Rec.ups) : up[x[1]].st = x[2].st THEN {}
+           ELSE {"quiescent:state-changed-without-notification"})
 
 Done ==
   /\ l = Len(Tr) + 1
@@ -338,7 +350,7 @@ Finished == l = Len(Tr) + 2 /\ UNCHANGED tvars
 TNext ==
   \/ TSetMode \/ TSetUsers \/ TAdd \/ TRemove \/ TScan \/ TScanDir \/ TFriend \/ TBlock \/ TExcluded
   \/ TTick \/ TListing \/ TChangeBegins \/ TMarker \/ TCreated \/ TState \/ TAbortCall \/ TReply \/ TOffer \/ TBytes
-  \/ TQuiescent \/ TRemoved \/ TError \/ Done \/ Finished
+  \/ TQuiescent \/ TSession \/ TRemoved \/ TError \/ Done \/ Finished
 
 TSpec == TInit /\ [][TNext]_tvars
 
